@@ -6,6 +6,7 @@ use std::path::{Path, PathBuf};
 
 pub mod safelong;
 pub mod uri;
+pub mod token;
 
 pub struct Src {
     pub path: PathBuf,
@@ -201,7 +202,7 @@ pub fn write_if_changed(path: &Path, text: &str) -> std::io::Result<bool> {
 }
 
 pub fn all() -> Vec<GenFile> {
-    vec![safelong::emit(), uri::emit()]
+    vec![safelong::emit(), uri::emit(), token::emit_token(), token::emit_rid()]
 }
 
 pub fn run(out_dir: &Path) -> Result<(), String> {
